@@ -27,6 +27,7 @@ type TemplateDef struct {
 	Tolerate     []string                 `json:"tolerate,omitempty"` // taint keys tolerated (Exists); "*" = tolerate everything
 	Side         bool                     `json:"side,omitempty"`     // second container
 	Cpu          string                   `json:"cpu,omitempty"`      // request of container main
+	Mem          string                   `json:"mem,omitempty"`      // memory request of container main, spelled as given ("128Mi" / "134217728")
 	Labels       map[string]string        `json:"labels,omitempty"`
 	Namespace    string                   `json:"namespace,omitempty"` // spec.template.metadata.namespace (normally empty)
 }
@@ -99,6 +100,12 @@ func (t *TemplateDef) Spec() corev1.PodTemplateSpec {
 	cs := []corev1.Container{{Name: "main", Image: t.Image()}}
 	if t.Cpu != "" {
 		cs[0].Resources = corev1.ResourceRequirements{Requests: corev1.ResourceList{corev1.ResourceCPU: resource.MustParse(t.Cpu)}}
+	}
+	if t.Mem != "" {
+		if cs[0].Resources.Requests == nil {
+			cs[0].Resources.Requests = corev1.ResourceList{}
+		}
+		cs[0].Resources.Requests[corev1.ResourceMemory] = resource.MustParse(t.Mem)
 	}
 	if t.Side {
 		cs = append(cs, corev1.Container{Name: "side", Image: "side:" + t.Letter})
@@ -281,6 +288,7 @@ type SettingDef struct {
 	Container2 string           `json:"container2,omitempty"`
 	Cpu2      string            `json:"cpu2,omitempty"`
 	AgeSec    int               `json:"ageSec"` // creation offset, seconds before start (equal/different creation times)
+	Terminating bool            `json:"terminating,omitempty"` // deleted by the user but held by a finalizer: it still exists and still applies
 }
 
 func (sd *SettingDef) Object() *edsv1.ExtendedDaemonsetSetting {
